@@ -157,6 +157,10 @@ enum Op {
     Restart(u64),
     /// leadership transfer: a TimeoutNow from src (stamped with src's term) reaches dst
     TimeoutNow(u64, u64),
+    /// the application finalizes what the node has committed, minus `back` entries
+    Finalize(u64, u64),
+    /// create_snapshot + truncate_log, as perform_compaction does
+    Compact(u64),
 }
 
 struct Run {
@@ -279,6 +283,21 @@ impl Run {
                 dist.hit(if ok { "op.timeout_now.accepted" } else { "op.timeout_now.ignored" });
                 (format!("GTimeoutNow {dst} {}", b(ok)), format!("timeout_now({src}->{dst})"), *dst)
             }
+            Op::Finalize(i, back) => {
+                let h = self.sim.nodes[*i as usize].commit_index().saturating_sub(*back);
+                let _ = self.sim.nodes[*i as usize].finalize_to(h);
+                dist.hit("op.finalize");
+                (format!("GFinalize {i} {h}"), format!("finalize({i},{h})"), *i)
+            }
+            Op::Compact(i) => {
+                let before = self.sim.nodes[*i as usize].verif_log_image().first().map(|e| e.0);
+                if let Ok((meta, _)) = self.sim.nodes[*i as usize].create_snapshot() {
+                    let _ = self.sim.nodes[*i as usize].truncate_log(&meta);
+                }
+                let after = self.sim.nodes[*i as usize].verif_log_image().first().map(|e| e.0);
+                dist.hit(if before != after { "op.compact.dropped_prefix" } else { "op.compact.noop" });
+                (format!("GCompact {i}"), format!("compact({i})"), *i)
+            }
         };
         let before = self.sim.pool.len() as u64;
         let envs = self.sim.drain(touched);
@@ -301,10 +320,12 @@ struct Knobs {
     fast_path: bool,
     geometric: bool,
     adaptive: bool,
+    trailing: u64,
 }
 
 fn start(k: &Knobs, r: &mut Rng, dir: PathBuf) -> (Run, u64) {
     let mut cfg = RaftConfig::default();
+    cfg.snapshot_trailing_logs = k.trailing as usize;
     cfg.enable_pre_vote = k.pre_vote;
     cfg.enable_fast_path = k.fast_path;
     cfg.enable_geometric_tiebreak = k.geometric;
@@ -330,7 +351,7 @@ fn finish(k: &Knobs, run: Run, max_power: u64, dist: &mut Dist, tag: &str) -> (S
         dist.hit("case.had_commit");
     }
     let q = k.n / 2 + 1;
-    let term = format!("(Cfg {} {} {} {}, {}, {})", k.n, q, b(k.adaptive), max_power, list(run.ops), list(run.obs));
+    let term = format!("(Cfg {} {} {} {} {}, {}, {})", k.n, q, b(k.adaptive), max_power, k.trailing, list(run.ops), list(run.obs));
     (term, format!("{tag}n={} prevote={} fast={} geo={} :: {}", k.n, k.pre_vote, k.fast_path, k.geometric, run.human.join(" ")), run.leaders > 0)
 }
 
@@ -350,7 +371,7 @@ fn run_script(script: &[Op], k: &Knobs, r: &mut Rng, dir: PathBuf, dist: &mut Di
 
 /// one generated schedule, executed on real nodes; returns (Gallina case, readable form, non-trivial?)
 fn run_case(r: &mut Rng, dir: PathBuf, dist: &mut Dist, steps: usize, n: u64) -> (String, String, bool) {
-    let k = Knobs { n, pre_vote: r.chance(1, 2), fast_path: r.chance(1, 2), geometric: r.chance(1, 2), adaptive: r.chance(1, 2) };
+    let k = Knobs { n, pre_vote: r.chance(1, 2), fast_path: r.chance(1, 2), geometric: r.chance(1, 2), adaptive: r.chance(1, 2), trailing: *r.pick(&[0u64, 0, 1, 2]) };
     dist.hit(&format!("cfg.n{}.prevote{}.fast{}.geo{}", n, k.pre_vote as u8, k.fast_path as u8, k.geometric as u8));
     let (mut run, mp) = start(&k, r, dir);
     let loss = *r.pick(&[0u64, 0, 10, 30]); // per-message loss percentage for this schedule
@@ -379,7 +400,9 @@ fn run_case(r: &mut Rng, dir: PathBuf, dist: &mut Dist, steps: usize, n: u64) ->
             match leader_now {
                 Some(l) => {
                     let li = if r.chance(5, 6) { l } else { any };
-                    if d < 38 { Op::Propose(li) } else if d < 76 { Op::Heartbeat(li) } else if d < 80 { Op::TimeoutNow(l, any) } else if d < 88 { elect(r) } else if d < 94 { Op::RequestVotes(any) } else { Op::Restart(any) }
+                    if d < 34 { Op::Propose(li) } else if d < 68 { Op::Heartbeat(li) } else if d < 72 { Op::TimeoutNow(l, any) }
+                    else if d < 77 { Op::Finalize(if r.chance(4, 5) { l } else { any }, r.below(2)) } else if d < 82 { Op::Compact(if r.chance(4, 5) { l } else { any }) }
+                    else if d < 89 { elect(r) } else if d < 94 { Op::RequestVotes(any) } else { Op::Restart(any) }
                 }
                 None => if d < 70 { elect(r) } else if d < 78 { Op::RequestVotes(any) } else if d < 90 { Op::Heartbeat(any) } else { Op::Restart(any) },
             }
@@ -724,14 +747,46 @@ fn main() {
         s7.extend(vec![dl(0, 2, "AE"), TimeoutNow(0, 1), RequestVotes(1), dl(1, 2, "RV"), dl(2, 1, "RVR"), dl(1, 0, "RV"),
                        Propose(1), Heartbeat(1), dl(1, 2, "AE"), dl(2, 1, "AER"), TimeoutNow(0, 2), TimeoutNow(1, 1)]);
         scripts.push(("corpus leadership-transfer: ", s7));
+        // (8) F-C01-gap: the leader compacts entries a follower never received (model correspondence included)
+        let rep = |l: u64, f: u64| vec![Heartbeat(l), dl(l, f, "AE"), dl(f, l, "AER")];
+        let mut s8 = elect(0, 1);
+        s8.extend(warm(0, 1));
+        s8.extend((0..6).map(|_| Propose(0)));
+        s8.extend(rep(0, 1)); s8.extend(rep(0, 1));
+        s8.extend(elect(1, 0));
+        s8.extend(vec![Finalize(1, 1), Compact(1)]);
+        for _ in 0..4 { s8.extend(rep(1, 2)); }
+        scripts.push(("corpus lagging-follower-behind-compaction: ", s8));
+        // (9) F-C01-prev: a follower whose log diverges below the leader's compaction point
+        let mut s9 = elect(0, 1);
+        s9.extend(warm(0, 1));
+        s9.extend((0..4).map(|_| Propose(0)));
+        s9.extend(vec![Heartbeat(0), dl(0, 1, "AE"), dl(1, 0, "AER"), dl(0, 2, "AE"), dl(2, 0, "AER")]);
+        s9.push(Propose(0));
+        s9.extend(elect(1, 2));
+        s9.extend(rep(1, 2));
+        s9.extend(vec![Propose(1), Propose(1)]);
+        s9.extend(rep(1, 2)); s9.extend(rep(1, 2));
+        s9.extend(elect(2, 1));
+        s9.extend(vec![Finalize(2, 1), Compact(2)]);
+        for _ in 0..4 { s9.extend(rep(2, 0)); }
+        scripts.push(("corpus divergent-follower-behind-compaction: ", s9));
+        // (10) compaction on leader and follower, more entries, restart of the compacted follower
+        let mut s10 = elect(0, 1);
+        s10.extend(warm(0, 1));
+        s10.extend((0..5).map(|_| Propose(0)));
+        s10.extend(rep(0, 1)); s10.extend(rep(0, 1)); s10.extend(rep(0, 2)); s10.extend(rep(0, 2));
+        s10.extend(vec![Finalize(0, 0), Compact(0), Finalize(1, 1), Compact(1), Propose(0)]);
+        s10.extend(rep(0, 1)); s10.extend(rep(0, 2)); s10.push(Restart(1)); s10.extend(rep(0, 1)); s10.extend(rep(0, 1));
+        scripts.push(("corpus compaction-then-restart: ", s10));
         for (ci, (tag, script)) in scripts.iter().enumerate() {
-            let k = Knobs { n: 3, pre_vote: false, fast_path: false, geometric: false, adaptive: false };
+            let k = Knobs { n: 3, pre_vote: false, fast_path: false, geometric: false, adaptive: false, trailing: 0 };
             let dir = args.out.join("wal").join(format!("corpus{ci}"));
             let (t, h, nt) = run_script(script, &k, &mut rng, dir.clone(), &mut dist, tag);
             let _ = std::fs::remove_dir_all(&dir);
             w.push(&t, &h, nt);
         }
-        let k5 = Knobs { n: 5, pre_vote: false, fast_path: false, geometric: false, adaptive: true };
+        let k5 = Knobs { n: 5, pre_vote: false, fast_path: false, geometric: false, adaptive: true, trailing: 0 };
         let dir = args.out.join("wal").join("corpus5");
         let (t, h, nt) = run_script(&s6, &k5, &mut rng, dir.clone(), &mut dist, "corpus split-vote-5: ");
         let _ = std::fs::remove_dir_all(&dir);
